@@ -117,6 +117,12 @@ def one_run(ctx, drv, rng):
                 ops.append({"parents": [0], "ticks": rng.randint(1, 3) + 2 * k, "mem": rng.choice([1, 2])})
             if rng.random() < 0.3:
                 ops.append({"parents": [1, 2], "ticks": rng.randint(1, 3), "mem": 1})
+            elif rng.random() < 0.4:
+                # two equal branches that need more memory than a first container is given: started together, they are killed in the same tick --
+                # two failed results of ONE pipeline in one tick
+                ops[1].update({"ticks": 2, "mem": 30})
+                ops[2].update({"ticks": 2, "mem": 30})
+                ctx.sit("dag_with_two_branches_failing_together")
             pipes.append({"prio": rng.choice([1, 2, 3]), "ops": ops})
         nt = int(params["duration"] * tps)
         arrivals = [[] for _ in range(nt)]
@@ -206,6 +212,11 @@ def uncontended(ctx, drv, rng):
     algo = rng.choice(["naive", "priority", "priority-pool", "overbook"])
     tps = rng.choice([1, 2, 4, 8, 16])
     multi = True if algo == "priority-pool" else (False if algo == "overbook" else rng.random() < 0.5)
+    # a quarter of the runs: a pool of 2.5 CPUs under naive (the container gets all 2.5) and the law linear3, i.e. CPU time = base / 2.5; the base is chosen
+    # so that every quotient is exact in floats (binary tick rates)
+    frac_cpu = rng.random() < 0.25
+    if frac_cpu:
+        algo, multi = "naive", True
     nops = rng.randint(1, 4)
     p = Pipeline("u", rng.choice(list(Priority)))
     ops, need = [], 0
@@ -215,7 +226,10 @@ def uncontended(ctx, drv, rng):
         for _ in range(rng.choice([1, 1, 2, 3])):          # several segments per operator, some of which take no tick at all
             k = rng.randint(0, 4) if rng.random() < 0.7 else 0
             io = rng.randint(0, 3) if rng.random() < 0.6 else 0
-            op.add_segment(Segment(baseline_cpu_seconds=k / tps, cpu_scaling="const", memory_gb=0.5, storage_read_gb=io * 20 / tps))
+            if frac_cpu:
+                op.add_segment(Segment(baseline_cpu_seconds=2.5 * k / tps, cpu_scaling="linear3", memory_gb=0.5, storage_read_gb=io * 20 / tps))
+            else:
+                op.add_segment(Segment(baseline_cpu_seconds=k / tps, cpu_scaling="const", memory_gb=0.5, storage_read_gb=io * 20 / tps))
             tot += k + io
         need += max(1, tot)                                 # an operator occupies at least one tick; a segment need not
         ops.append(op)
@@ -228,7 +242,7 @@ def uncontended(ctx, drv, rng):
             self.t += 1
             return [p] if self.t - 1 == arrive else []
 
-    params = {"duration": (arrive + need + 5) / tps, "ticks_per_second": tps, "num_pools": 2, "cpus_per_pool": 16, "ram_gb_per_pool": 64,
+    params = {"duration": (arrive + need + 5) / tps, "ticks_per_second": tps, "num_pools": 2, "cpus_per_pool": 2.5 if frac_cpu else 16, "ram_gb_per_pool": 64,
               "multi_operator_containers": multi, "allow_memory_overcommit": algo == "overbook"}
     stats, rec = layer_m.run_recorded(params, algo, One())
     ctx.coverage["evaluations"] += 1
